@@ -415,6 +415,13 @@ class Main(Suite):
         """C-git: S (Spec/GitFields) vs the git binary on the stored objects"""
         git, cl, spec = self.sides(ctx, cases, impl)
         bad = compared = outside = wf = 0
+        # tags on which git itself is undefined: for-each-ref %(contents) runs parse_signature -> remove_signature, which has two
+        # slots; a third gpgsig region in front of an inline signature makes git 2.39 abort (C03's S calls this "undefined")
+        dead = [c for c in cases if c["op"] == "tdec" and git.get(c["id"]) is None and str(spec.get(c["id"]) or "").startswith("( ok")]
+        undefined = set()
+        if dead:
+            outs = ctx.coq_eval("From GoGit Require Import Spec.GitSig.", ['c03_spec_tag "%s"' % c["raw"] for c in dead])
+            undefined = {c["id"] for c, o in zip(dead, outs) if o == "undefined"}
         for c in cases:
             i, op = c["id"], c["op"]
             if op in ("cenc", "tenc"):
@@ -428,7 +435,7 @@ class Main(Suite):
                 bad += 1
                 ctx.notes.append("spec evaluation failed on %s" % c["raw"][:80])
                 continue
-            if s == "outside":
+            if s == "outside" or i in undefined:
                 outside += 1
                 continue
             compared += 1
